@@ -14,8 +14,8 @@ ASSUMPTIONS = [
     "finite positive radii between 1e-6 and 1e6, finite centres up to 1e6 in magnitude",
     "symmetry and bounds are judged with slack 1e-6*max(r)^2 (near tangency acos is ill-conditioned: rounding noise of the two evaluation orders reaches ~1e-7*max(r)^2, a tenth of this slack and a hundredth of the accuracy bound); accuracy with the stated 1e-5*max(r)^2",
 ]
-CASES = {"quick": 120000, "thorough": 20000000}
-MIN_CASES = {"quick": 20000, "thorough": 500000}
+CASES = {"quick": 600000, "thorough": 20000000}
+MIN_CASES = {"quick": 100000, "thorough": 500000}
 REQUIRED_CLASSES = ["ext_tangent_axis", "int_tangent_axis", "ext_tangent_dir", "int_tangent_dir", "equal", "lens"]
 REQUIRED_COUNTERS = ["oracle_compared", "symmetry_checked", "reused_points_checked"]
 
